@@ -214,7 +214,7 @@ struct Violation {
 
 struct ProgStats {
     uint64_t schedules = 0, steps = 0, contended = 0, parked = 0; int completed_bound = -1; bool capped = false;
-    std::vector<uint64_t> per_bound; uint64_t max_points = 0, max_threads = 0; std::string root_schedule, last_schedule;
+    std::vector<uint64_t> per_bound, per_bound_contended; uint64_t max_points = 0, max_threads = 0; std::string root_schedule, last_schedule;
 };
 
 static std::vector<Worker> g_workers;
@@ -406,7 +406,7 @@ static bool explore(RunState &rs, int prog, int bound, int max_violations) {
     tasks.push_back(Task{prog, bound, MODE_SINGLE, 0, Prefix{}});
     int split_depth = bound >= 3 ? 2 : 1;
     ProgStats &ps = rs.stats[prog];
-    uint64_t before = ps.schedules;
+    uint64_t before = ps.schedules, before_c = ps.contended;
     bool stop = false; int found = 0;
     auto ndev = [](const Prefix &pr) { int d = 0; for (auto c : pr.choice) d += c != 0; return d; };
 
@@ -517,6 +517,7 @@ static bool explore(RunState &rs, int prog, int bound, int max_violations) {
         if (stop) for (int k = 0; k < g_jobs; k++) if (g_workers[k].busy) g_w[k].cancel = 1;
     }
     ps.per_bound.push_back(ps.schedules - before);
+    ps.per_bound_contended.push_back(ps.contended - before_c);
     if (!stop) ps.completed_bound = bound; else if (g_deadline_hit) ps.capped = true;
     return !stop;
 }
@@ -620,6 +621,8 @@ int main(int argc, char **argv) {
                 first ? "" : ",\n", jesc(p.name).c_str(), jesc(p.describe).c_str(), p.bound, s.completed_bound, (unsigned long long)s.schedules, (unsigned long long)s.steps,
                 (unsigned long long)s.contended, (unsigned long long)s.parked, (unsigned long long)s.max_points, (unsigned long long)s.max_threads);
         for (size_t i = 0; i < s.per_bound.size(); i++) fprintf(f, "%s%llu", i ? "," : "", (unsigned long long)s.per_bound[i]);
+        fprintf(f, "], \"per_bound_contended\": [");
+        for (size_t i = 0; i < s.per_bound_contended.size(); i++) fprintf(f, "%s%llu", i ? "," : "", (unsigned long long)s.per_bound_contended[i]);
         fprintf(f, "], \"default_schedule\": \"%s\", \"last_schedule\": \"%s\"}", s.root_schedule.c_str(), s.last_schedule.c_str());
         first = false;
     }
